@@ -181,6 +181,54 @@ def area_sum(shapes):
 """,
 })
 
+_p("py_defaults_named", "python", {
+    "conf.py": """class Alpha:
+    def __init__(self):
+        self.kind = "a"
+
+class Beta:
+    def __init__(self):
+        self.kind = "b"
+
+def connect(host, port=80, debug=False, name="x", retries=3, *extra, **options):
+    if debug:
+        return host
+    return name
+
+def render(tainted, title="t", footer="f", width=10):
+    out = title + tainted + footer
+    emit(out)
+    return out
+
+def choose(flag):
+    if flag:
+        x = Alpha()
+    else:
+        x = Beta()
+    return x
+""",
+    "main.py": """from conf import connect, render, choose, Alpha, Beta
+
+def handler(req, flag):
+    if flag:
+        who = Alpha()
+        label = "left"
+    else:
+        who = Beta()
+        label = "right"
+    c1 = connect("h")
+    c2 = connect("h", 8080, name=who, zeta=label, eta=who, theta=req)
+    c3 = connect("h", 1, True, "n", 5, who, label, req)
+    r1 = render(req)
+    r2 = render(req, footer=label)
+    y = choose(flag)
+    sink(r2)
+    return y
+
+handler("q", True)
+""",
+})
+
 _p("js_classes_taint", "javascript", {
     "index.js": """const util = require('./lib/util');
 import { Store } from './lib/store.js';
@@ -254,15 +302,16 @@ main();
 """,
     "shapes.ts": """export interface Shape { area(): number; }
 export class Circle implements Shape {
-  r: number;
-  constructor(r: number) { this.r = r; }
+  constructor(public r: number) { }
   area(): number { return 3 * this.r * this.r; }
 }
 export class Square implements Shape {
-  a: number;
-  constructor(a: number) { this.a = a; }
+  a: number = 2;
+  constructor(a: number) { }
   area(): number { return this.a * this.a; }
+  describe(label: string = 'sq', sep: string = ':', pad: number = 0): string { return label + sep + pad; }
 }
+export function label(s: Square): string { return s.describe(); }
 """,
 })
 
@@ -381,7 +430,7 @@ _p("c_buffers", "c", {
 
 struct store { int count; char *last; };
 
-static struct store g_store;
+static struct store *g_store;
 
 char *put(struct store *s, char *val) {
     s->last = val;
@@ -390,7 +439,7 @@ char *put(struct store *s, char *val) {
 }
 
 int handler(char *req, int other) {
-    char *v = put(&g_store, req);
+    char *v = put(g_store, req);
     char *w = wrap(v);
     sink(w);
     int t = clean(other);
@@ -491,15 +540,28 @@ def gen_wide(lang, rng, n_funcs=14, n_classes=3, n_files=3):
     fields = {c: _names(rng, rng.randint(3, 7)) for c in cnames}
     methods = {c: _names(rng, rng.randint(2, 4), "m_") for c in cnames}
     keys = _names(rng, 6)
-    calls = {}
+    # call structure: a binary tree over the functions (every function has one caller: the number of calling contexts
+    # stays linear) plus, from every inner function, one call to a shared leaf helper (many callers of one target)
+    calls = {f: [] for f in fnames}
+    n = len(fnames)
+    leaves = [fnames[i] for i in range(n) if 2 * i + 1 >= n]
     for i, f in enumerate(fnames):
-        later = fnames[i + 1:]
-        calls[f] = rng.sample(later, min(len(later), rng.randint(1, 3)))
-    chain = fnames[:4]
+        for j in (2 * i + 1, 2 * i + 2):
+            if j < n:
+                calls[f].append(fnames[j])
+        if calls[f] and leaves:
+            h = rng.choice(leaves)
+            if h not in calls[f]:
+                calls[f].append(h)
+    chain = [fnames[i] for i in (0, 1, 3, 7) if i < n]
     gen = {"python": _wide_py, "javascript": _wide_js, "typescript": _wide_ts, "java": _wide_java, "go": _wide_go,
            "c": _wide_c, "php": _wide_php}[lang]
     files = gen(rng, fnames, cnames, fields, methods, keys, calls, chain, n_files)
     return {"lang": lang, "files": files, "extra": [], "settings": taint_settings(lang), "origin": "generated"}
+
+
+def _next(chain, f):
+    return chain[chain.index(f) + 1] if f in chain[:-1] else None
 
 
 def _split(items, n):
@@ -522,7 +584,7 @@ def _wide_py(rng, fnames, cnames, fields, methods, keys, calls, chain, n_files):
             body.append(f"        self.{fld} = v")
         for m in methods[c]:
             fld = rng.choice(fields[c])
-            body.append(f"    def {m}(self, x):")
+            body.append(f"    def {m}(self, x, sep=':', pad=0):")
             body.append(f"        self.{fld} = x")
             body.append(f"        return self.{rng.choice(fields[c])}")
         cls_src.append("\n".join(body))
@@ -535,9 +597,7 @@ def _wide_py(rng, fnames, cnames, fields, methods, keys, calls, chain, n_files):
         lines.append(f"    r = o.{rng.choice(methods[c])}(b)")
         lines.append("    d = {" + ", ".join(f'"{k}": a' for k in rng.sample(keys, 3)) + "}")
         for g in calls[f]:
-            lines.append(f"    r = {g}(r, a)")
-        if f in chain and chain.index(f) + 1 < len(chain):
-            lines.append(f"    r = {chain[chain.index(f) + 1]}(a, r)")
+            lines.append(f"    r = {g}(a, r)" if _next(chain, f) == g else f"    r = {g}(r, a)")
         if f == chain[-1]:
             lines.append("    sink(a)")
         lines.append("    return r")
@@ -546,7 +606,7 @@ def _wide_py(rng, fnames, cnames, fields, methods, keys, calls, chain, n_files):
         imports = ["from kinds import " + ", ".join(cnames)]
         for j in range(len(parts)):
             if j != i:
-                needed = sorted({g for f in grp for g in calls[f] + ([chain[chain.index(f) + 1]] if f in chain[:-1] else []) if home.get(g) == f"mod{j}"})
+                needed = sorted({g for f in grp for g in calls[f] if home.get(g) == f"mod{j}"})
                 if needed:
                     imports.append(f"from mod{j} import " + ", ".join(needed))
         files[f"mod{i}.py"] = "\n".join(imports) + "\n\n" + "\n\n".join(fbody(f) for f in grp) + "\n"
@@ -565,22 +625,22 @@ def _wide_js(rng, fnames, cnames, fields, methods, keys, calls, chain, n_files, 
     for c in cnames:
         body = [f"class {c} {{"]
         if ts:
-            for fld in fields[c]:
-                body.append(f"  {fld}: any;")
-        body.append(f"  constructor(v{ann}) {{ " + " ".join(f"this.{fld} = v;" for fld in fields[c]) + " }")
-        for m in methods[c]:
-            body.append(f"  {m}(x{ann}) {{ this.{rng.choice(fields[c])} = x; return this.{rng.choice(fields[c])}; }}")
+            body.append("  constructor(" + ", ".join(f"public {fld}: any" for fld in fields[c]) + ") { }")
+            for m in methods[c]:
+                body.append(f"  {m}(x: any, sep: any = ':', pad: any = 0) {{ return this.{rng.choice(fields[c])}; }}")
+        else:
+            body.append(f"  constructor(v) {{ " + " ".join(f"this.{fld} = v;" for fld in fields[c]) + " }")
+            for m in methods[c]:
+                body.append(f"  {m}(x, sep = ':', pad = 0) {{ this.{rng.choice(fields[c])} = x; return this.{rng.choice(fields[c])}; }}")
         body.append("}")
         cls_src.append("\n".join(body))
 
     def fbody(f):
         c = rng.choice(cnames)
-        lines = [f"function {f}(a{ann}, b{ann}) {{", f"  let o = new {c}(a);", f"  let r = o.{rng.choice(methods[c])}(b);",
+        lines = [f"function {f}(a{ann}, b{ann}) {{", f"  let o = new {c}(" + (", ".join("a" for _ in fields[c]) if ts else "a") + ");", f"  let r = o.{rng.choice(methods[c])}(b);",
                  "  let d = { " + ", ".join(f"{k}: a" for k in rng.sample(keys, 3)) + " };"]
         for g in calls[f]:
-            lines.append(f"  r = {g}(r, a);")
-        if f in chain[:-1]:
-            lines.append(f"  r = {chain[chain.index(f) + 1]}(a, r);")
+            lines.append(f"  r = {g}(a, r);" if _next(chain, f) == g else f"  r = {g}(r, a);")
         if f == chain[-1]:
             lines.append("  sink(a);")
         lines.append("  return r;")
@@ -617,9 +677,7 @@ def _wide_java(rng, fnames, cnames, fields, methods, keys, calls, chain, n_files
         for k in rng.sample(keys, 3):
             body.append(f"        d.put(\"{k}\", a);")
         for g in calls[f]:
-            body.append(f"        r = {g}(r, a);")
-        if f in chain[:-1]:
-            body.append(f"        r = {chain[chain.index(f) + 1]}(a, r);")
+            body.append(f"        r = {g}(a, r);" if _next(chain, f) == g else f"        r = {g}(r, a);")
         if f == chain[-1]:
             body.append("        sink(a);")
         body.append("        return r;")
@@ -653,9 +711,7 @@ def _wide_go(rng, fnames, cnames, fields, methods, keys, calls, chain, n_files):
         fsrc.append("\td := map[string]string{" + ", ".join(f'"{k}": a' for k in rng.sample(keys, 3)) + "}")
         fsrc.append(f"\tr = d[\"{keys[0]}\"]")
         for g in calls[f]:
-            fsrc.append(f"\tr = {g}(r, a)")
-        if f in chain[:-1]:
-            fsrc.append(f"\tr = {chain[chain.index(f) + 1]}(a, r)")
+            fsrc.append(f"\tr = {g}(a, r)" if _next(chain, f) == g else f"\tr = {g}(r, a)")
         if f == chain[-1]:
             fsrc.append("\tsink(a)")
         fsrc.append("\treturn r")
@@ -682,9 +738,7 @@ def _wide_c(rng, fnames, cnames, fields, methods, keys, calls, chain, n_files):
         src.append(f"    o.{rng.choice(fields[c])} = a;")
         src.append(f"    char *r = o.{rng.choice(fields[c])};")
         for g in calls[f]:
-            src.append(f"    r = {g}(r, a);")
-        if f in chain[:-1]:
-            src.append(f"    r = {chain[chain.index(f) + 1]}(a, r);")
+            src.append(f"    r = {g}(a, r);" if _next(chain, f) == g else f"    r = {g}(r, a);")
         if f == chain[-1]:
             src.append("    sink(a);")
         src.append("    return r;")
@@ -702,7 +756,7 @@ def _wide_php(rng, fnames, cnames, fields, methods, keys, calls, chain, n_files)
             cls.append(f"    public ${fld};")
         cls.append("    function __construct($v) { " + " ".join(f"$this->{fld} = $v;" for fld in fields[c]) + " }")
         for m in methods[c]:
-            cls.append(f"    function {m}($x) {{ $this->{rng.choice(fields[c])} = $x; return $this->{rng.choice(fields[c])}; }}")
+            cls.append(f"    function {m}($x, $sep = ':', $pad = 0) {{ $this->{rng.choice(fields[c])} = $x; return $this->{rng.choice(fields[c])}; }}")
         cls.append("}")
     src = ["<?php", "require_once 'kinds.php';"]
     for f in fnames:
@@ -712,9 +766,7 @@ def _wide_php(rng, fnames, cnames, fields, methods, keys, calls, chain, n_files)
         src.append(f"    $r = $o->{rng.choice(methods[c])}($b);")
         src.append("    $d = array(" + ", ".join(f'"{k}" => $a' for k in rng.sample(keys, 3)) + ");")
         for g in calls[f]:
-            src.append(f"    $r = {g}($r, $a);")
-        if f in chain[:-1]:
-            src.append(f"    $r = {chain[chain.index(f) + 1]}($a, $r);")
+            src.append(f"    $r = {g}($a, $r);" if _next(chain, f) == g else f"    $r = {g}($r, $a);")
         if f == chain[-1]:
             src.append("    sink($a);")
         src.append("    return $r;")
